@@ -102,17 +102,6 @@ Proof. by move=> lt; have [-> -> -> -> [-> ->]] := verdicts lt. Qed.
 
 End OnAlignment.
 
-(* index form of the denotation *)
-Lemma absE_index (p : parr R) i :
-  wfb p ->
-  absE n p i = \sum_(0 <= k < size (rows p)) cell (cols p) k i *: 'X_[mon n (names p) (nth [::] (rows p) k)].
-Proof.
-move=> wp; have [sz _ _ _ _] := wfbP wp.
-rewrite /absE /absL /terms (big_nth ([::], [::])) size_zip -sz minnn.
-rewrite big_nat_cond [RHS]big_nat_cond; apply: eq_bigr => k; rewrite andbT => /andP[_ lt].
-by rewrite /absT nth_zip.
-Qed.
-
 (* == holds only for identical polynomials: on an alignment, equal vectors give equal values *)
 Theorem equal_same_value (a' b' : parr R) order i :
   wfb a' -> wfb b' -> rows a' = rows b' -> names a' = names b' ->
